@@ -764,13 +764,16 @@ def _run(ctx, case, name, kind):
             rows = np.zeros((case["K"], case["m"]))
             for i in prev["S"]:
                 centres[i] = alg.design_space.confidence_regions[i].center
-            bt = alg.beta_t
-            if isinstance(bt, dict):  # widths keyed by design
-                for i, w in bt.items():
-                    rows[int(i)] = np.asarray(w, dtype=float)
-            else:  # positional rows, aligned with the iteration order of S at modelling time
-                for i, w in zip(prev["S"], np.atleast_2d(np.asarray(bt, dtype=float))):
-                    rows[i] = w
+            # widths: through the shared helper (the internal store `beta_t` may be a dict by design, a positional
+            # array or a table by design); if its form is not recognised, use what the property talks about —
+            # the half-widths of the displayed boxes
+            try:
+                wd = stubs.auer_get_widths(alg, list(prev["S"]))
+            except (stubs.AuerWidthFormUnknown, ValueError):
+                wd = stubs.auer_displayed_widths(alg, prev["S"])
+            for i in prev["S"]:
+                if i in wd:
+                    rows[int(i)] = np.asarray(wd[i], dtype=float)
             if not (np.all(np.isfinite(centres)) and np.all(np.isfinite(rows))):
                 centres = rows = None
         picks, refine_ans, refined = [], False, None
